@@ -7,6 +7,7 @@ NOTE = ("Trusted base: symnp's model of the NumPy surface (symnp/proxy.py), the 
         "(rounding/overflow/NaN propagation not modelled). Claim per obligation: for all real inputs in the harness domain, on every "
         "explored path; undecided obligations are listed in the evidence and not claimed.")
 CHECKS = {
+ 'C10': "Round trips rpy<->quaternion (single, array, free functions, degrees), axis-angle<->quaternion and <->matrix, exp(log q), powers, DCM.log and every Euler-sequence constructor are executed on symbolic angle atoms (one (cos,sin) pair per atom; inverse-trig results compared by cross-multiplication) and compared with the input angles / ordered products of elementary rotations for all angles in the stated ranges.",
  'C19': "Table-driven symbolic execution of the public callables of ahrs.common.orientation/quaternion/dcm, ahrs.utils.metrics and the filters' estimate/update entry points on fresh symbolic (non-normalised, degree-valued) argument arrays; aliasing is exact on object arrays, so the solver decides for all inputs whether any element of an argument differs from its saved term after the call and whether a second call returns the same result.",
  'C07': "Differential symbolic execution: every N-row entry point (QuaternionArray methods, batch branches of chiaverini/hughes, batch metrics, vectorised Tilt/SAAM) is run on symbolic rows (N=2 and N=1) next to its single-item twin and the solver decides row-by-row equality modulo real algebra (inverse-trig results compared through their arguments).",
  'C02': "Each of the seven method/version choices is executed on R = R_ref(q) for every unit q (closed-form methods: angle <= pi - 1e-6) through the public dispatchers, on every pivot/threshold path (sign strata of q forked); out = +-q, |out| = 1 and all sqrt/division definedness obligations are decided by the solver. np.linalg.eig is a certificate-based contract checked on the K matrix the code built.",
